@@ -23,7 +23,7 @@ import (
 func init() {
 	core.Register(&core.Monitor{
 		ID: "C02",
-		Rule: "every schema text (valid generated, one injected fault from the 39-entry catalogue, random syntax-level SDL, token-mutated SDL) goes through LoadSchema, and every syntactically valid document (valid, 1-3 injected faults, collision documents, type-blind nonsense with unknown types, undefined variables, cyclic and unused fragments) through Validate against every schema that loaded, " +
+		Rule: "every schema text (valid generated, one injected fault from the 39-entry catalogue, random syntax-level SDL, token-mutated SDL) goes through LoadSchema, and every syntactically valid document (valid, 1-3 injected faults, collision documents, type-blind nonsense with unknown types, undefined variables, cyclic and unused fragments) through Validate against every schema that loaded (one document in four also as the same parsed object against a second schema sharing names with the first, alternating twice), " +
 			"in isolated workers under a deterministic step budget counted by hooks in the walker and in every rule that follows fragment spreads or type references: panic, fatal exit, hang or more than C*n^2*log2(n) steps (n = bytes of document + schema) is a violation. " +
 			"Size-parametrised adversarial families (fragment fan-out under a field, under __schema, under a subscription root, with overlapping aliases; fragment cycles through fields; mutually spreading fragments; deep alias chains; wide same-name siblings; many sibling fragments; deep literals; @oneOf variables; interface chains and diamonds for the loader) " +
 			"are measured at k, 2k for k = 4..32 (64 thorough): steps(2k) <= 24*steps(k) (polynomial degree <= ~4.5), and the largest member must stay within the absolute budget. distinct = (family, k) points measured plus distinct error-rule sets of random pairs; non-trivial = documents validated or schemas rejected",
@@ -36,7 +36,7 @@ func init() {
 		Check:           c02Check,
 		DistinctClasses: []string{"family-point", "rule-set"},
 		MinEvaluations:  func(tier string) int64 { return 5000 },
-		RequiredCounts:  []string{"documents_validated", "schemas_rejected", "family_points", "growth_ratios_checked"},
+		RequiredCounts:  []string{"documents_validated", "documents_revalidated_against_another_schema", "schemas_rejected", "family_points", "growth_ratios_checked"},
 		ShardTimeoutS:   600,
 	})
 }
@@ -132,7 +132,9 @@ var c02Families = []c02Family{
 		return "{ list(l: " + strings.Repeat("[", k) + "1" + strings.Repeat("]", k) + ") deep(in: {l: " + strings.Repeat("[", k) + "{a: 1}" + strings.Repeat("]", k) + "}) }"
 	}},
 	{"oneof-variables", nil, func(k int) string {
-		return "query Q($v: Int) { " + rep(k, func(i int) string { return fmt.Sprintf("o%d: one(arg: {a: $v}) u%d: one(arg: {a: $undefined%d}) ", i, i, i) }) + " ...Unused } fragment Unused on Query { one(arg: {b: $nowhere}) } fragment NeverSpread on Query { one(arg: {a: $x, b: $y}) }"
+		return "query Q($v: Int) { " + rep(k, func(i int) string {
+			return fmt.Sprintf("o%d: one(arg: {a: $v}) u%d: one(arg: {a: $undefined%d}) ", i, i, i)
+		}) + " ...Unused } fragment Unused on Query { one(arg: {b: $nowhere}) } fragment NeverSpread on Query { one(arg: {a: $x, b: $y}) }"
 	}},
 	{"variables-everywhere", nil, func(k int) string {
 		return "query Q(" + rep(k, func(i int) string { return fmt.Sprintf("$v%d: Int ", i) }) + ") { " + rep(k, func(i int) string { return fmt.Sprintf("d%d: deep(in: {a: $v%d, l: [{a: $v%d}]}) ", i, i, (i+1)%k) }) + "}"
@@ -170,6 +172,7 @@ func c02Run(x *core.Ctx) {
 	}
 	r := x.Rand(uint64(x.Shard))
 	rn := &model.Renderer{}
+	prevSrc := ""
 	for i := 0; i < ns; i++ {
 		items := tsys.Schema(r, &tsys.GenOpts{Extensions: i%3 == 0, Small: i%4 == 0, Descs: i%5 == 0})
 		mg := tsys.Merge(items)
@@ -221,7 +224,14 @@ func c02Run(x *core.Ctx) {
 			}
 			pc := core.NewCase("pair", "schema", ssrc, "doc", rn.RenderDoc(doc))
 			x.Do(pc, func() { c02Check(x, pc) })
+			if j%3 == 0 && prevSrc != "" {
+				// one parsed document validated against this schema, then (the same object) against another schema that
+				// shares names with it, then against this one again: a server that reloads its schema keeps parsed documents
+				xc := core.NewCase("pair2", "schema", ssrc, "schema2", prevSrc, "doc", pc.Get("doc"))
+				x.Do(xc, func() { c02Check(x, xc) })
+			}
 		}
+		prevSrc = ssrc
 	}
 	// families: distributed over the shards
 	ks := []int{4, 8, 16, 32}
@@ -294,9 +304,27 @@ func c02Check(x *core.Ctx, c *core.Case) {
 		}
 	case "pair":
 		c02Pair(x, c.Get("schema"), c.Get("doc"), "")
+	case "pair2":
+		c02Revalidate(x, c.Get("schema"), c.Get("schema2"), c.Get("doc"))
 	case "family":
 		c02FamilyPoint(x, c.Get("family"), c.Get("k"))
 	}
+}
+
+func c02Revalidate(x *core.Ctx, s1, s2, dsrc string) {
+	a, err1 := gqlparser.LoadSchema(&ast.Source{Name: "schema.graphql", Input: s1})
+	b, err2 := gqlparser.LoadSchema(&ast.Source{Name: "schema2.graphql", Input: s2})
+	doc, perr := parser.ParseQuery(&ast.Source{Name: "doc.graphql", Input: dsrc})
+	if err1 != nil || err2 != nil || perr != nil {
+		x.Count("skipped:revalidation-inputs")
+		return
+	}
+	n := len(s1) + len(s2) + len(dsrc)
+	for _, s := range []*ast.Schema{a, b, a, b} {
+		c02Steps(c02Budget(n), func() { validator.Validate(s, doc) })
+	}
+	x.Count("documents_revalidated_against_another_schema")
+	x.Nontrivial()
 }
 
 func c02Pair(x *core.Ctx, ssrc, dsrc, family string) int64 {
